@@ -29,6 +29,46 @@ type Spec struct {
 // band zeroes whole rows ("rowbands") or 8-byte column blocks ("colbands") of a prng-filled buffer, or everything
 // except a few pixels ("sparse"): sprites with transparent margins, text lines on a transparent background.
 func band(pix []uint8, stride int, s Spec) {
+	if s.Fill == "edges" {
+		// opaque everywhere except the first and last pixel of each row and a few scattered pixels, which keep
+		// their random alpha: soft edges of an otherwise opaque picture
+		bpp := map[string]int{"NRGBA": 4, "RGBA": 4, "NRGBA64": 8, "RGBA64": 8}[s.Type]
+		if bpp == 0 || stride <= 0 {
+			return
+		}
+		w := rect(s.Parent).Dx()
+		first, last := s.Rect[0]-s.Parent[0], s.Rect[2]-s.Parent[0]-1 // first and last visible column
+		for y := 0; y*stride < len(pix); y++ {
+			for x := 0; x < w && y*stride+(x+1)*bpp <= len(pix); x++ {
+				// rows alternate: only the last visible pixel translucent / only the first / both / a few scattered
+				switch y % 4 {
+				case 0:
+					if x == last {
+						continue
+					}
+				case 1:
+					if x == first {
+						continue
+					}
+				case 2:
+					if x == first || x == last {
+						continue
+					}
+				default:
+					if (uint64(x*31+y*17)+s.Seed)%23 == 0 {
+						continue
+					}
+				}
+				o := y*stride + x*bpp
+				if bpp == 4 {
+					pix[o+3] = 0xFF
+				} else {
+					pix[o+6], pix[o+7] = 0xFF, 0xFF
+				}
+			}
+		}
+		return
+	}
 	if stride <= 0 || (s.Fill != "rowbands" && s.Fill != "colbands" && s.Fill != "sparse") {
 		return
 	}
@@ -375,7 +415,7 @@ func Gen(t *rapid.T, label string, o GenOpts) Spec {
 	if !ycc && rapid.IntRange(0, 5).Draw(t, label+"widestride") == 0 {
 		s.StrideExtra = rapid.SampledFrom([]int{1, 2, 3, 4, 5, 8, 13, 64}).Draw(t, label+"strideextra")
 	}
-	fills := []string{"prng", "prng", "prng", "ff", "zero", "ramp", "rowbands", "colbands", "sparse"}
+	fills := []string{"prng", "prng", "prng", "ff", "zero", "ramp", "rowbands", "colbands", "sparse", "edges"}
 	if o.Orbit {
 		fills = append(fills, "orbit-h", "orbit-v")
 	}
